@@ -3,3 +3,4 @@ pub mod hist;
 pub mod c17;
 pub mod c09e;
 pub mod c20;
+pub mod c06;
